@@ -85,11 +85,19 @@ fn run<G: Group>(sc: &Scenario, st: &mut RunStats) -> Vec<Violation> {
         let mut proof = match prove_mode::<G>(&m.ctx, &built.statement, &built.witness, &RngMode::Healthy(m.rng_seed)).0 {
             Ok(Ok(p)) => p,
             other => {
-                out.push(Violation::new(
-                    "prover_fails_with_spare_capacity",
-                    format!("cap_p={}", m.cap_prover),
-                    format!("msg {} (m={}, capacity {}): {:?}", mi, m.m, m.cap_prover, other.map(|r| r.map(|_| ()))),
-                ));
+                // is it the spare capacity, or can this statement not be proved at all (not C12's business)?
+                let eq_cfg = Config { cap: m.m, ..cfg };
+                let eq = build::<G>(&eq_cfg, &m.wit);
+                let at_equal = matches!(prove_mode::<G>(&m.ctx, &eq.statement, &eq.witness, &RngMode::Healthy(m.rng_seed)).0, Ok(Ok(_)));
+                if m.cap_prover > m.m && at_equal {
+                    out.push(Violation::new(
+                        "prover_fails_with_spare_capacity",
+                        format!("cap_p={}", m.cap_prover),
+                        format!("msg {} (m={}): proving succeeds with capacity {} but fails with capacity {}: {:?}", mi, m.m, m.m, m.cap_prover, other.map(|r| r.map(|_| ()))),
+                    ));
+                } else {
+                    out.push(Violation::new("harness:prover_failed", "setup", format!("msg {} cannot be proved even at equal capacity", mi)));
+                }
                 return out;
             },
         };
